@@ -3,7 +3,7 @@ import os
 
 LEVEL = "other"
 TRUSTED = ["may-alias frame analysis (pyvc/framecheck.py): flow-insensitive taint from the tracks parameter; result of copy()/list()/dict()/"
-           "np.asarray()/comprehensions is fresh, whereas networkx views and accessors (subgraph(), nodes(data=True), edges(), .data(), .items(), .values(), .get()) and the attribute getters get_node_attr/get_nodes_attr/get_edge_attr/get_edges_attr "
+           "np.array()/comprehensions is fresh (np.asarray is NOT: it returns an ndarray argument itself), whereas networkx views and accessors (subgraph(), nodes(data=True), edges(), .data(), .items(), .values(), .get()) and the attribute getters get_node_attr/get_nodes_attr/get_edge_attr/get_edges_attr "
            "propagate the alias (they share the attribute dictionaries); a method name resolves to Tracks/SolutionTracks only on a `tracks`/`self` receiver; repository callees are followed by parameter position (return aliasing per tuple component)",
            "third-party calls that receive (a part of) the tracks are assumed read-only: geff.write, np.save, json.dump, pandas constructors, "
            "skimage.util.map_array, tifffile.imwrite (listed per function in coverage.frame_assumptions)"]
